@@ -326,6 +326,20 @@ func c13ranges(c *Ctx) {
 
 func c13mutate(c *Ctx) {
 	r := c.R
+	r.Rule("ORDER(translate once, last): in clusterColocationProfileMutatingPod no call of mutatePodResourceSpec lies inside the loop over the matched profiles (the translation erases the native entries for the tier known at that moment; a later profile that changes the priority class finds nothing left to translate)")
+	if fn := c.Fn(podMutPkg, "PodMutatingHandler", "clusterColocationProfileMutatingPod"); fn != nil {
+		n, inLoop := 0, ""
+		for _, cl := range an.Calls(fn, false) {
+			if an.ShortCallee(cl.Common()) != "mutatePodResourceSpec" {
+				continue
+			}
+			n++
+			if an.InnermostLoopHeader(cl.Block()) != nil {
+				inLoop = c.InstrPos(cl)
+			}
+		}
+		r.Check(n >= 1 && inLoop == "", "ORDER", fkey(fn)+"/translate-after-all-profiles", c.Pos(fn.Pos()), "translation runs once, behind the profile loop", "the resource translation runs inside the profile loop (at "+inLoop+"): with two matching profiles of different tiers the pod ends up with the first tier's resource names and the second tier's priority")
+	}
 	r.Rule("PATH/FLOW: in replaceAndEraseResource the store resourceList[extended] = q and delete(resourceList, native) are on the same path, guarded by the native key being present; q derives only from the looked-up native quantity (through NewQuantity(MilliValue()) for CPU)")
 	if fn := c.Fn(podMutPkg, "", "replaceAndEraseResource"); fn != nil {
 		var store *ssa.MapUpdate
